@@ -26,6 +26,7 @@ DEFAULT_PROFILE = dict(
     facilities=True,
     facility_rich=False,
     res_absence=True,
+    p_res_absence=0.25,
     proj_absence=True,
     fixed_lists=True,
     solo=True,
@@ -99,7 +100,7 @@ def gen_random(rng, prof=None):
             facs.append(dict(
                 name="f%d_%d" % (k, f), id="F%d_%d" % (k, f), skills={}, cost=rng.choice(costs),
                 solo=p["solo"] and rng.random() < 0.2,
-                absence=_absence(rng) if p["res_absence"] and rng.random() < 0.25 else []))
+                absence=_absence(rng) if p["res_absence"] and rng.random() < p["p_res_absence"] else []))
         wps.append(dict(name="wp%d" % k, id="WP%d" % k, max_space=rng.choice([1.0, 1.5, 2.0, 3.0]),
                         inputs=[], targets=[], facilities=facs))
     for k in range(1, nwp):
@@ -126,7 +127,7 @@ def gen_random(rng, prof=None):
             workers.append(dict(
                 name="w%d_%d" % (k, w), id="W%d_%d" % (k, w), skills={}, fskills={},
                 cost=rng.choice(costs), solo=p["solo"] and rng.random() < 0.2,
-                absence=_absence(rng) if p["res_absence"] and rng.random() < 0.25 else [],
+                absence=_absence(rng) if p["res_absence"] and rng.random() < p["p_res_absence"] else [],
                 main_wp=("WP%d" % rng.randrange(nwp)) if nwp and rng.random() < 0.4 else None))
         teams.append(dict(name="team%d" % k, id="TM%d" % k, targets=[], workers=workers))
     for i, t in enumerate(tasks):
@@ -282,7 +283,8 @@ def gen_feasible(rng, cls=None):
     cls = cls or rng.choice([1, 2])
     kinds = (FS, SS) if cls == 1 else (FS, SS, SF, FF)
     prof = profile(kinds=kinds, facilities=False, comps=(rng.random() < 0.5), nested=False,
-                   fixed_lists=False, ensure_worker=0.0, max_tasks=7, proj_absence=True)
+                   fixed_lists=False, ensure_worker=0.0, max_tasks=7, proj_absence=True,
+                   p_res_absence=rng.choice([0.25, 0.7]))
     spec = gen_random(rng, prof)
     tasks, teams = spec["tasks"], spec["teams"]
     for t in tasks:
@@ -314,7 +316,7 @@ def gen_feasible(rng, cls=None):
                 continue
             workers.append(dict(name="d%d" % i, id="D%d" % i, skills={t["name"]: rng.choice([0.5, 1.0, 2.0])},
                                 fskills={}, cost=rng.choice(COSTS), solo=rng.random() < 0.2,
-                                absence=_absence(rng) if rng.random() < 0.2 else [], main_wp=None))
+                                absence=_absence(rng) if rng.random() < 0.45 else [], main_wp=None))
             targets.append(i)
         if workers:
             teams.append(dict(name="dteam", id="TM%d" % k, targets=targets, workers=workers))
